@@ -26,6 +26,9 @@ func c10Scenarios() []hpScenario {
 		sc.Name = hpScenarioName(&sc)
 		if sc.Sequential {
 			sc.Name += " sequential"
+			if sc.Settle {
+				sc.Name += "+settled"
+			}
 		}
 		if sc.OneChunk {
 			sc.Name += " one-chunk"
@@ -70,9 +73,9 @@ func c10Scenarios() []hpScenario {
 	// two requests on one downstream connection
 	ok, silent, closeS, errS := []string{upReply200}, []string{upSilent}, []string{upClose}, []string{upReply5xx, upReply200}
 	for _, th := range []uint32{0, 1, 2} {
-		add(hpScenario{Hosts: 1, RouteTimeoutMs: 1000, MaxRequests: th, Sequential: true, Requests: two(ok, ok)})
-		add(hpScenario{Hosts: 1, RouteTimeoutMs: 1000, MaxRequests: th, Sequential: true, Requests: two(silent, ok)})
-		add(hpScenario{Hosts: 1, RouteTimeoutMs: 1000, MaxRequests: th, Sequential: true, Requests: two(closeS, ok)})
+		add(hpScenario{Hosts: 1, RouteTimeoutMs: 1000, MaxRequests: th, Sequential: true, Settle: true, Requests: two(ok, ok)})
+		add(hpScenario{Hosts: 1, RouteTimeoutMs: 1000, MaxRequests: th, Sequential: true, Settle: true, Requests: two(silent, ok)})
+		add(hpScenario{Hosts: 1, RouteTimeoutMs: 1000, MaxRequests: th, Sequential: true, Settle: true, Requests: two(closeS, ok)})
 		add(hpScenario{Hosts: 1, RouteTimeoutMs: 1000, MaxRequests: th, Requests: two(ok, ok)})
 		add(hpScenario{Hosts: 1, RouteTimeoutMs: 1000, MaxRequests: th, Requests: two(ok, silent)})
 		add(hpScenario{Hosts: 1, RouteTimeoutMs: 1000, MaxRequests: th, OneChunk: true, Requests: two(ok, closeS)})
@@ -232,7 +235,7 @@ func c10Run(p *vreport.Part, sc hpScenario, replay bool) bool {
 			report("gauge upstream_connection_active differs from the number of open upstream connections", fmt.Sprintf("gauge delta %d, open connections %d", obs.Gauges["upstream_connection_active"], open))
 		}
 		// (4) thresholds: sequential requests are all admitted (capacity freed is available again)
-		if sc.Sequential && sc.MaxRequests > 0 {
+		if sc.Sequential && sc.Settle && sc.MaxRequests > 0 {
 			for i := range sc.Requests {
 				for _, f := range obs.DownFrames {
 					if f.ID == uint32(100+i) && f.Status == bolt.ResponseStatusServerThreadpoolBusy {
